@@ -80,3 +80,19 @@ add("C08",
     "DESIGN.md 5/C08", COMMON_TRUST + " Linalg.lstsq/solve/invert are run-time monitored (A4).",
     "contracts on the real functions; real code on symbolic control points / weights over concrete knot-vector pairs, identities by normal form (bounded in shape)")
 ENGINE_S += ["C08"]
+
+add("C03",
+    "Engine V proves, for ALL knot vectors of all lengths, the binary span search (index safety, termination, U[k] <= u < U[k+1] / umax case), valid(), limits, "
+    "degree, npts. Acceptance <=> well-formedness of the constructor is decided exhaustively over all vectors up to a length bound over a 4-value alphabet "
+    "(bounded, engine B); queries and every KnotVector mutator (valid and invalid requests) with symbolic knot values per shape: result as specified and "
+    "well-formed, or exception with the immutable payload object untouched; all operation sequences up to a depth bound (bounded). " + S_NOTE,
+    "DESIGN.md 5/C03", COMMON_TRUST + " KnotVector('0011') -> TypeError is known finding D4.",
+    "contracts on the real functions; engine V (AST->VC->z3) for the query functions, exhaustive small-domain enumeration and symbolic per-shape execution for construction and mutators (bounded)")
+add("C09",
+    "Contract on calculus.Derivate.*: D lives on C's interval and D(u) equals the formal derivative of the Cox-de Boor spec on every open span for all control "
+    "points and weights (coefficient-wise within 1e-9: the difference matrix is a float64 array, A1); degree 0 -> zero curve; C unmodified; "
+    "Calculus.difference_vector closed form proved for all knot vectors by engine V. " + S_NOTE,
+    "DESIGN.md 5/C09", COMMON_TRUST,
+    "contracts on the real functions; engine V for the difference vector, real code on symbolic control points / weights over concrete knot vectors against the formally differentiated spec (bounded in shape)")
+ENGINE_S += ["C03", "C09"]
+ENGINE_V += ["C03", "C09"]
